@@ -551,8 +551,8 @@ class UnionMetaType(StructureMetaType):
         # Try to write by largest field
         for field in fields:
             if isinstance(field.type, StructureMetaType) and field.name is None:
-                # Prefer to write regular fields initially
-                anonymous_struct = field.type
+                # Prefer to write regular fields initially, remember the largest anonymous struct
+                anonymous_struct = anonymous_struct or field.type
                 continue
 
             if anonymous_struct and (anonymous_struct.size or 0) > (field.type.size or 0):
